@@ -74,6 +74,11 @@ POLICIES = {
     'close@poll': {'poll#0': [['close']]},
     'close@text': {'text': [['close']], 'ping': [['close']], 'closing': [['close']], 'protocol_error': [['close']]},
     'send+close@ready': {'ready': [SEND, ['close'], SEND, ['close']]},
+    # the with-block around the WebSocket is left (by another thread, or by the handler itself) while this event is
+    # being handled: WebSocket.__exit__ closes the session
+    'exit@connected': {'connected': [['__exit__', None, None, None]]},
+    'exit@ready': {'ready': [['__exit__', None, None, None]]},
+    'exit@text': {'text': [['__exit__', None, None, None]], 'poll#1': [['__exit__', None, None, None]]},
 }
 PNAMES = sorted(POLICIES)
 TIMERS = {
@@ -134,6 +139,9 @@ def run_case(case, acc):
     if case['kind'] == 'stalled-writer':
         return run_stalled_writer(case, acc)
     pols = [case['policy']] if 'policy' in case else PNAMES
+    if 'policy' not in case and len(case.get('seq', ())) > 1:
+        # the with-block reactions are combined with histories of at most one server step (cost)
+        pols = [p_ for p_ in PNAMES if not p_.startswith('exit@')]
     tims = [case['timer']] if 'timer' in case else sorted(TIMERS)
     for pn in pols:
         for tn in tims:
